@@ -26,6 +26,22 @@ Contract of F3 on in-memory SQLite through an execution context whose fetchall_f
   E8  len(result rows) == n; sorted: rows[i].x == parameters[i].x (and rows[i].id == parameters[i].id when the key is given);
       stored table rows == parameters (+ defaults), each exactly once; returned (id, x) pairs == stored (id, x) pairs;
       inserted_primary_key_rows[i] belongs to parameters[i].
+
+Generative composition (E9).  returning() / return_defaults() are generative and additive; the statement asks for parameter
+order when ANY of the calls that built it passed sort_by_parameter_order=True (the flag is only ever switched on):
+  E9a  stmt._sort_by_parameter_order == (some call passed True)                      (frame of the generative methods)
+  E9b  F2 (stub server, every dialect) and F3 (SQLite, permuting context) hold with `sort` = "some call passed True", for the
+       statement built by each composition: one call; two calls with the flag on the first / last / both / neither; a
+       columns-less returning(sort_by_parameter_order=True) before / after / between the calls that give the columns; an
+       explicit False after a True; values() before / after / between; return_defaults() with the flag on the first / last
+       call and with supplemental_cols (checked through inserted_primary_key_rows / returned_defaults_rows / the rewound rows);
+       the return_defaults compositions also right after insert(t).return_defaults(sort_by_parameter_order=True) went through
+       the same compiled cache (part execute-sqlite-cache)
+  E9c  ORM bulk INSERT on SQLite (same permuting context): Session.execute / Session.scalars of insert(Model) with
+       .returning(Model | columns) built by the same compositions and a list of parameter sets - the n-th entity / row
+       belongs to the n-th parameter set; Session.bulk_insert_mappings(return_defaults=True), bulk_save_objects(
+       return_defaults=True) and add_all() + flush(): the primary key written back to the n-th mapping / object is the
+       stored key of ITS row.
 """
 import itertools
 import json
@@ -91,9 +107,11 @@ def make_table(sentinel):
     return t
 
 
-def make_statement(t, shape, sentinel):
+def make_statement(t, shape, sentinel, composition=None):
     from sqlalchemy import insert, bindparam, func
     sort = sentinel != "unsorted"
+    if composition is not None:
+        return compose(composition, insert(t), t.c.id, t.c.x, t.c.d)[0]
     if shape == "plain":
         return insert(t).returning(t.c.id, t.c.x, sort_by_parameter_order=sort)
     if shape == "returning_bind":
@@ -101,6 +119,43 @@ def make_statement(t, shape, sentinel):
     if shape == "sql_expr_value":
         return insert(t).values(d=func.abs(bindparam("d"))).returning(t.c.id, t.c.x, sort_by_parameter_order=sort)
     raise AssertionError(shape)
+
+
+def _compositions():
+    """name -> (build(insert_stmt, id, x, d) -> stmt, some call passed sort_by_parameter_order=True, kind)
+    id / x / d: the column (or ORM attribute) objects; every `returning` composition returns exactly (id, x)"""
+    S = dict(sort_by_parameter_order=True)
+    return {
+        "single-flag": (lambda i, id, x, d: i.returning(id, x, **S), True, "returning"),
+        "single-noflag": (lambda i, id, x, d: i.returning(id, x), False, "returning"),
+        "flag-first": (lambda i, id, x, d: i.returning(id, **S).returning(x), True, "returning"),
+        "flag-last": (lambda i, id, x, d: i.returning(id).returning(x, **S), True, "returning"),
+        "flag-both": (lambda i, id, x, d: i.returning(id, **S).returning(x, **S), True, "returning"),
+        "flag-neither": (lambda i, id, x, d: i.returning(id).returning(x), False, "returning"),
+        "flag-only-first": (lambda i, id, x, d: i.returning(**S).returning(id, x), True, "returning"),
+        "flag-only-last": (lambda i, id, x, d: i.returning(id, x).returning(**S), True, "returning"),
+        "flag-only-middle-of-3": (lambda i, id, x, d: i.returning(id).returning(**S).returning(x), True, "returning"),
+        "flag-first-of-3": (lambda i, id, x, d: i.returning(id, **S).returning().returning(x), True, "returning"),
+        "flag-then-explicit-false": (lambda i, id, x, d: i.returning(id, **S).returning(x, sort_by_parameter_order=False), True, "returning"),
+        "values-before": (lambda i, id, x, d: i.values(d=6).returning(id, x, **S), True, "returning"),
+        "values-after": (lambda i, id, x, d: i.returning(id, x, **S).values(d=6), True, "returning"),
+        "values-between": (lambda i, id, x, d: i.returning(id, **S).values(d=6).returning(x), True, "returning"),
+        "return_defaults-flag": (lambda i, id, x, d: i.return_defaults(**S), True, "return_defaults"),
+        "return_defaults-noflag": (lambda i, id, x, d: i.return_defaults(), False, "return_defaults"),
+        "return_defaults-flag-first": (lambda i, id, x, d: i.return_defaults(id, **S).return_defaults(d), True, "return_defaults"),
+        "return_defaults-flag-last": (lambda i, id, x, d: i.return_defaults(id).return_defaults(d, **S), True, "return_defaults"),
+        "return_defaults-supplemental": (lambda i, id, x, d: i.return_defaults(supplemental_cols=[x], **S), True, "return_defaults+rows"),
+        "return_defaults-supplemental-flag-first": (lambda i, id, x, d: i.return_defaults(**S).return_defaults(supplemental_cols=[x]), True, "return_defaults+rows"),
+    }
+
+
+COMPOSITIONS = _compositions()
+RETURNING_COMPOSITIONS = [k for k, v in COMPOSITIONS.items() if v[2] == "returning"]
+
+
+def compose(composition, ins, id_, x, d):
+    build, requested, kind = COMPOSITIONS[composition]
+    return build(ins, id_, x, d), requested, kind
 
 
 def param_sets(sentinel, n):
@@ -115,11 +170,13 @@ def param_sets(sentinel, n):
     return out
 
 
-def compile_case(spec, shape, sentinel, n, max_params):
+def compile_case(spec, shape, sentinel, n, max_params, composition=None):
     d = make_dialect(spec, max_params)
     t = make_table(sentinel)
-    stmt = make_statement(t, shape, sentinel)
+    stmt = make_statement(t, shape, sentinel, composition)
     psets = param_sets(sentinel, n)
+    if composition is not None and composition.startswith("values-"):
+        psets = [{k: v for k, v in p.items() if k != "d"} for p in psets]
     compiled = stmt.compile(dialect=d, column_keys=sorted(psets[0]), for_executemany=True)
     cps = [compiled.construct_params(p, escape_names=False) for p in psets]
     if compiled.positional:
@@ -289,13 +346,19 @@ class _StubContext:
         return [rows[i] for i in pi]
 
 
-def check_reorder_stub(spec, sentinel, n, page, which):
-    d, t, compiled, cps, params = compile_case(spec, "plain", sentinel, n, None)
+def check_reorder_stub(spec, sentinel, n, page, which, composition=None):
+    d, t, compiled, cps, params = compile_case(spec, "plain", sentinel, n, None, composition)
     imv = compiled._insertmanyvalues
     if imv is None:
         return None
     sort = sentinel != "unsorted"
     desc = dict(part="reorder-stub", dialect=spec, sentinel=sentinel, rows=n, page_size=page, permutation=which)
+    if composition is not None:
+        sort = COMPOSITIONS[composition][1]
+        desc["composition"] = composition
+    e9a = None
+    if composition is not None and bool(compiled.statement._sort_by_parameter_order) != sort:
+        e9a = dict(desc, clause="E9a _sort_by_parameter_order == some call asked for it", expected=sort, got=compiled.statement._sort_by_parameter_order)
     nsent = imv.num_sentinel_columns
     index_of = {id(p): i for i, p in enumerate(params)}
     counter = itertools.count(1)
@@ -320,7 +383,7 @@ def check_reorder_stub(spec, sentinel, n, page, which):
         return row
     ctx = _StubContext(compiled, cps, page, row_for, which)
     cursor = _StubCursor(2 + nsent)
-    fails = []
+    fails = [e9a] if e9a else []
     try:
         gen = d._deliver_insertmanyvalues_batches(None, cursor, str(compiled), params, None, ctx)
         nb = 0
@@ -457,13 +520,202 @@ def check_pk_rows(style, n, page, which):
     return fails, 1, dict(nontrivial=min(n, page) > 1 and perms_for(min(n, page), which) != tuple(range(min(n, page))))
 
 
+
+# ------------------------------------------------------------------------------------------------ E9: generative composition on SQLite
+COMPOSED_STYLES = ["autoinc", "client_uuid", "insert_sentinel", "explicit_pk"]
+
+
+def _params_for(style, n):
+    explicit = style in ("explicit_pk", "insert_sentinel")
+    return [dict({"id": 100 + 7 * ((i * 3) % n) + i} if explicit else {}, x=10 * i + 1) for i in range(n)], explicit
+
+
+def _order_clauses(desc, fails, what, got_x, got_id, params, stored, requested):
+    """got_x / got_id: per returned item, in returned order; stored: x -> id"""
+    n = len(params)
+    if len(got_x) != n:
+        fails.append(dict(desc, clause="E9 one %s per parameter set" % what, expected=n, got=[str(v) for v in got_x]))
+        return
+    if sorted(zip(map(str, got_id), got_x), key=lambda r: r[1]) != sorted(((str(i), x) for x, i in stored.items()), key=lambda r: r[1]):
+        fails.append(dict(desc, clause="E9 returned %s == stored rows" % what, expected=sorted([str(i), x] for x, i in stored.items()),
+                          got=[[str(i), x] for i, x in zip(got_id, got_x)]))
+    elif requested and (got_x != [p["x"] for p in params] or [str(i) for i in got_id] != [str(stored[p["x"]]) for p in params]):
+        fails.append(dict(desc, clause="E9 n-th %s belongs to n-th parameter set" % what, expected=[[str(stored[p["x"]]), p["x"]] for p in params],
+                          got=[[str(i), x] for i, x in zip(got_id, got_x)]))
+
+
+def check_exec_composed(style, n, page, composition, which, warm_cache=False):
+    """warm_cache: first execute insert(t).return_defaults(sort_by_parameter_order=True) through the same (fresh) compiled
+    cache - the statement under test differs from it only by what its generative calls added"""
+    from sqlalchemy import insert, select, delete
+    e, t, conn = exec_engine(style, page)
+    desc = dict(part="execute-sqlite-cache" if warm_cache else "execute-sqlite-composed", style=style, rows=n, page_size=page, composition=composition, permutation=which)
+    _PERM["which"] = which
+    params, explicit = _params_for(style, n)
+    fails = []
+    evals = 1
+    stmt, requested, kind = compose(composition, insert(t), t.c.id, t.c.x, t.c.d)
+    if bool(stmt._sort_by_parameter_order) != requested:
+        fails.append(dict(desc, clause="E9a _sort_by_parameter_order == some call asked for it", expected=requested, got=stmt._sort_by_parameter_order))
+    opts = {}
+    if warm_cache:
+        opts = {"compiled_cache": {}}
+    elif kind == "return_defaults+rows":
+        # a compiled cache of its own (shared by the cases of this composition): see the execute-sqlite-cache part
+        opts = {"compiled_cache": _ENV.setdefault(("cache", style, page, composition), {})}
+    try:
+        conn.execute(delete(t))
+        if warm_cache:
+            conn.execute(insert(t).return_defaults(sort_by_parameter_order=True), [dict(p, x=-p["x"], **({"id": -p["id"]} if "id" in p else {})) for p in params],
+                         execution_options=opts)
+            conn.execute(delete(t))
+        res = conn.execute(stmt, params, execution_options=opts)
+        rows = ipk = None
+        if kind != "return_defaults":
+            rows = res.all()
+        if kind != "returning":
+            ipk = [r[0] for r in res.inserted_primary_key_rows]
+            rd = res.returned_defaults_rows
+        stored_rows = conn.execute(select(t.c.id, t.c.x, t.c.d)).all()
+        conn.commit()
+    except Exception as ex:  # noqa: BLE001
+        try:
+            conn.rollback()
+        except Exception:  # noqa: BLE001
+            pass
+        fails.append(dict(desc, clause="no-exception", got=f"{type(ex).__name__}: {ex}"[:200]))
+        return fails, 1, {}
+    stored = {r[1]: r[0] for r in stored_rows}
+    evals += 1
+    want_d = 6 if composition.startswith("values-") else 5
+    if sorted(stored) != [p["x"] for p in params] or any(r[2] != want_d for r in stored_rows) or (explicit and any(stored[p["x"]] != p["id"] for p in params)):
+        fails.append(dict(desc, clause="E9 stored rows == parameter sets (+ defaults), each once", expected=[[p.get("id"), p["x"], want_d] for p in params],
+                          got=[list(map(str, r)) for r in stored_rows]))
+        return fails, evals, {}
+    if kind == "returning":
+        evals += 1
+        _order_clauses(desc, fails, "row", [r[1] for r in rows], [r[0] for r in rows], params, stored, requested)
+    else:
+        evals += 1
+        # inserted_primary_key_rows: the x each key belongs to is known from the table
+        by_id = {str(i): x for x, i in stored.items()}
+        _order_clauses(desc, fails, "inserted primary key", [by_id.get(str(i)) for i in ipk], ipk, params, stored, requested)
+        if kind == "return_defaults+rows":
+            evals += 1
+            _order_clauses(desc, fails, "rewound row", [r._mapping["x"] for r in rows], [stored.get(r._mapping["x"]) for r in rows], params, stored, requested)
+        elif rd is not None and composition in ("return_defaults-flag-first", "return_defaults-flag-last") and not explicit:
+            evals += 1
+            _order_clauses(desc, fails, "returned_defaults row", [by_id.get(str(r._mapping["id"])) for r in rd], [r._mapping["id"] for r in rd], params, stored, requested)
+    k = min(n, page)
+    return fails, evals, dict(nontrivial=requested and k > 1 and perms_for(k, which) != tuple(range(k)))
+
+
+ORM_PATHS = (["execute-cols:" + c for c in RETURNING_COMPOSITIONS]
+             + ["execute-entity-flag", "execute-entity-flag-only-first", "execute-entity-flag-only-last", "execute-entity-noflag", "scalars-entity-flag",
+                "bulk_insert_mappings-return_defaults", "bulk_save_objects-return_defaults", "add_all-flush"])
+
+
+def orm_model(style, page):
+    key = ("model", style, page)
+    if key not in _ENV:
+        from sqlalchemy.orm import registry
+        e, t, conn = exec_engine(style, page)
+
+        class M:
+            def __init__(self, **kw):
+                for k, v in kw.items():
+                    setattr(self, k, v)
+        registry().map_imperatively(M, t)
+        _ENV[key] = M
+    return _ENV[key]
+
+
+def check_orm(style, n, page, path, which):
+    from sqlalchemy import insert, select, delete
+    from sqlalchemy.orm import Session
+    e, t, conn = exec_engine(style, page)
+    M = orm_model(style, page)
+    desc = dict(part="orm-sqlite", style=style, rows=n, page_size=page, path=path, permutation=which)
+    _PERM["which"] = which
+    params, explicit = _params_for(style, n)
+    fails = []
+    evals = 1
+    S = dict(sort_by_parameter_order=True)
+    stmt = None
+    requested = True
+    if path.startswith("execute-cols:"):
+        stmt, requested, _ = compose(path.split(":")[1], insert(M), M.id, M.x, M.d)
+    elif path in ("execute-entity-flag", "scalars-entity-flag"):
+        stmt = insert(M).returning(M, **S)
+    elif path == "execute-entity-flag-only-first":
+        stmt = insert(M).returning(**S).returning(M)
+    elif path == "execute-entity-flag-only-last":
+        stmt = insert(M).returning(M).returning(**S)
+    elif path == "execute-entity-noflag":
+        stmt, requested = insert(M).returning(M), False
+    if stmt is not None and bool(stmt._sort_by_parameter_order) != requested:
+        fails.append(dict(desc, clause="E9a _sort_by_parameter_order == some call asked for it", expected=requested, got=stmt._sort_by_parameter_order))
+    try:
+        conn.execute(delete(t))
+        conn.commit()
+        with Session(bind=conn) as sess:
+            if path.startswith("execute-cols:"):
+                rows = sess.execute(stmt, params).all()
+                got_x, got_id = [r[1] for r in rows], [r[0] for r in rows]
+            elif path.startswith("execute-entity"):
+                objs = sess.execute(stmt, params).scalars().all()
+                got_x, got_id = [o.x for o in objs], [o.id for o in objs]
+            elif path == "scalars-entity-flag":
+                objs = sess.scalars(stmt, params).all()
+                got_x, got_id = [o.x for o in objs], [o.id for o in objs]
+            elif path == "bulk_insert_mappings-return_defaults":
+                maps = [dict(p) for p in params]
+                sess.bulk_insert_mappings(M, maps, return_defaults=True)
+                got_x, got_id = [m["x"] for m in maps], [m.get("id") for m in maps]
+            elif path == "bulk_save_objects-return_defaults":
+                objs = [M(**p) for p in params]
+                sess.bulk_save_objects(objs, return_defaults=True)
+                got_x, got_id = [o.x for o in objs], [o.id for o in objs]
+            elif path == "add_all-flush":
+                objs = [M(**p) for p in params]
+                sess.add_all(objs)
+                sess.flush()
+                got_x, got_id = [o.x for o in objs], [o.id for o in objs]
+            else:
+                raise AssertionError(path)
+            stored_rows = sess.execute(select(t.c.id, t.c.x, t.c.d)).all()
+            sess.commit()
+        conn.commit()
+    except Exception as ex:  # noqa: BLE001
+        try:
+            conn.rollback()
+        except Exception:  # noqa: BLE001
+            pass
+        fails.append(dict(desc, clause="no-exception", got=f"{type(ex).__name__}: {ex}"[:300]))
+        return fails, 1, {}
+    stored = {r[1]: r[0] for r in stored_rows}
+    evals += 1
+    if sorted(stored) != [p["x"] for p in params] or (explicit and any(stored[p["x"]] != p["id"] for p in params)):
+        fails.append(dict(desc, clause="E9 stored rows == parameter sets (+ defaults), each once", expected=[[p.get("id"), p["x"]] for p in params],
+                          got=[list(map(str, r)) for r in stored_rows]))
+        return fails, evals, {}
+    evals += 1
+    _order_clauses(desc, fails, "mapping / object / row", got_x, got_id, params, stored, requested)
+    k = min(n, page)
+    return fails, evals, dict(nontrivial=requested and k > 1 and perms_for(k, which) != tuple(range(k)))
+
+
 # ------------------------------------------------------------------------------------------------ driver
 def run_case(case):
     part = case["part"]
     if part == "slicing":
         return check_slicing(case["dialect"], case["statement_shape"], case["sentinel"], case["rows"], case["page_size"], case["max_parameters"])
     if part == "reorder-stub":
-        return check_reorder_stub(case["dialect"], case["sentinel"], case["rows"], case["page_size"], case["permutation"])
+        return check_reorder_stub(case["dialect"], case["sentinel"], case["rows"], case["page_size"], case["permutation"], case.get("composition"))
+    if part in ("execute-sqlite-composed", "execute-sqlite-cache"):
+        return check_exec_composed(case["style"], case["rows"], case["page_size"], case["composition"], case["permutation"], part == "execute-sqlite-cache")
+    if part == "orm-sqlite":
+        return check_orm(case["style"], case["rows"], case["page_size"], case["path"], case["permutation"])
     if part == "execute-sqlite":
         return check_exec(case["style"], case["rows"], case["page_size"], case["sort_by_parameter_order"], case["permutation"])
     if part == "execute-sqlite-ipk":
@@ -497,6 +749,27 @@ def all_cases(tier):
                         cases.append(dict(part="execute-sqlite", style=style, rows=n, page_size=page, sort_by_parameter_order=sort, permutation=which))
                     if style in ("autoinc", "client_uuid", "explicit_pk", "insert_sentinel"):
                         cases.append(dict(part="execute-sqlite-ipk", style=style, rows=n, page_size=page, permutation=which))
+    # E9: generative composition
+    comp_rows = range(1, maxrows + 1) if tier == "thorough" else (1, 2, 3, 5, 7)
+    for spec in SLICE_DIALECTS:
+        for sentinel in ("autoinc", "client_pk", "insert_sentinel"):
+            for composition in RETURNING_COMPOSITIONS:
+                for n in comp_rows:
+                    for page in (2, 3, 100):
+                        for which in ((1, 2, 4) if tier != "thorough" else range(N_PERMS)):
+                            cases.append(dict(part="reorder-stub", dialect=spec, sentinel=sentinel, rows=n, page_size=page, permutation=which, composition=composition))
+    for style in COMPOSED_STYLES:
+        for n in comp_rows:
+            for page in (2, 3, 100):
+                for which in range(N_PERMS):
+                    for composition in COMPOSITIONS:
+                        cases.append(dict(part="execute-sqlite-composed", style=style, rows=n, page_size=page, composition=composition, permutation=which))
+                    for path in ORM_PATHS:
+                        cases.append(dict(part="orm-sqlite", style=style, rows=n, page_size=page, path=path, permutation=which))
+        for composition in COMPOSITIONS:
+            if COMPOSITIONS[composition][2] != "returning":
+                for n, page in ((1, 2), (3, 2), (3, 100)):
+                    cases.append(dict(part="execute-sqlite-cache", style=style, rows=n, page_size=page, composition=composition, permutation=1))
     return cases
 
 
@@ -521,7 +794,7 @@ def _work(cases):
             nontriv += 1
         for x in f:
             nfails += 1
-            cls = (x["part"], x.get("dialect", x.get("style")), x["clause"], x.get("sentinel"))
+            cls = (x["part"], x.get("dialect", x.get("style")), x["clause"], x.get("sentinel"), x.get("composition", x.get("path")))
             lst = fails.setdefault(cls, [])
             if len(lst) < 2:
                 lst.append(x)
@@ -529,7 +802,10 @@ def _work(cases):
 
 
 FUNCTION_OF = {"slicing": "SQLCompiler._deliver_insertmanyvalues_batches", "reorder-stub": "DefaultDialect._deliver_insertmanyvalues_batches",
-               "execute-sqlite": "Connection._exec_insertmany_context", "execute-sqlite-ipk": "Connection._exec_insertmany_context"}
+               "execute-sqlite": "Connection._exec_insertmany_context", "execute-sqlite-ipk": "Connection._exec_insertmany_context",
+               "execute-sqlite-composed": "UpdateBase.returning / return_defaults + Connection._exec_insertmany_context",
+               "execute-sqlite-cache": "UpdateBase.return_defaults cache key + Connection._exec_insertmany_context",
+               "orm-sqlite": "ORM bulk INSERT (orm/bulk_persistence.py, orm/persistence.py) + Connection._exec_insertmany_context"}
 
 
 def run(run, tier, seed, args):
@@ -559,7 +835,11 @@ def run(run, tier, seed, args):
         if k is not None:
             run.known_finding(k, "bounded insertmanyvalues scope")
             continue
-        cls = (x["part"], x["clause"], x.get("dialect", x.get("style")))
+        cls = (x["part"], x["clause"], x.get("dialect", x.get("style")), x.get("composition", x.get("path")))
+        if x["clause"].startswith("E9a"):
+            cls = ("E9a",)          # a property of the statement object: one replay is enough, keep room for the behavioural clauses
+        elif "composition" in x or "path" in x:
+            cls = (x["part"], x["clause"])
         if cls in seen or len(seen) >= 10:
             continue
         seen.add(cls)
@@ -568,7 +848,9 @@ def run(run, tier, seed, args):
     samples = []
     for case in (dict(part="slicing", dialect="postgresql:numeric_dollar", statement_shape="returning_bind", sentinel="autoinc", rows=5, page_size=2, max_parameters=None),
                  dict(part="reorder-stub", dialect="mssql:qmark", sentinel="autoinc", rows=5, page_size=3, permutation=1),
-                 dict(part="execute-sqlite", style="client_uuid", rows=5, page_size=3, sort_by_parameter_order=True, permutation=1)):
+                 dict(part="execute-sqlite", style="client_uuid", rows=5, page_size=3, sort_by_parameter_order=True, permutation=1),
+                 dict(part="execute-sqlite-composed", style="autoinc", rows=5, page_size=3, composition="flag-only-middle-of-3", permutation=1),
+                 dict(part="orm-sqlite", style="client_uuid", rows=5, page_size=3, path="execute-cols:flag-first", permutation=1)):
         r = run_case(case)
         samples.append(dict(case=case, contract_failures=len(r[0]), clauses_evaluated=r[1], info={k: (list(v) if isinstance(v, tuple) else v) for k, v in r[2].items()}))
     if ncases == 0 or parts.get("slicing", 0) == 0 or parts.get("reorder-stub", 0) == 0 or parts.get("execute-sqlite", 0) == 0:
@@ -577,20 +859,25 @@ def run(run, tier, seed, args):
     run.coverage.update(
         evaluations=evals, cases=ncases, cases_per_part=parts, distinct_nontrivial=nontriv,
         rule="cases enumerated exhaustively over the stated grid, each distinct by construction; one evaluation = one contract clause on one real call; "
-             "non-trivial = slicing case with more than one multi-row batch, or re-ordering case whose permutation of the first batch is not the identity "
-             "under sort_by_parameter_order",
+             "non-trivial = slicing case with more than one multi-row batch, or re-ordering case (stub, SQLite Core, SQLite ORM) whose permutation of "
+             "the first batch is not the identity while the statement asks for parameter order",
         samples=samples, exhaustive=True,
         scope="(F1) the real batch generator driven directly with INSERT..RETURNING compiled for %s x statement shapes %s x sentinel styles %s x "
               "rows 1..%d x page sizes 1..%d x insertmanyvalues_max_parameters in %s; (F2) the real dialect-level generator against a stub server returning "
               "each batch's rows permuted (all permutations of <= 3 rows, 6 fixed ones beyond) x the same dialects x sentinel styles x rows 1..%d x page "
               "sizes {1,2,3,5,100}; (F3) executemany INSERT..RETURNING and return_defaults on in-memory SQLite with a permuting execution context x styles %s x "
-              "rows 1..%d x page sizes {1,2,3,5,100} x sort_by_parameter_order on/off" % (SLICE_DIALECTS, STMT_SHAPES, SENTINELS, maxrows, 11 if tier == "thorough" else 8, MAXP, maxrows, EXEC_STYLES, maxrows),
+              "rows 1..%d x page sizes {1,2,3,5,100} x sort_by_parameter_order on/off; (E9) generative compositions %s: the returning ones against the "
+              "stub server x dialects x sentinel styles {autoinc, client_pk, insert_sentinel}, all of them on SQLite x styles %s, and the ORM paths %s, "
+              "x rows %s x page sizes {2,3,100} x permutations" % (SLICE_DIALECTS, STMT_SHAPES, SENTINELS, maxrows, 11 if tier == "thorough" else 8, MAXP, maxrows,
+                                                                  EXEC_STYLES, maxrows, list(COMPOSITIONS), COMPOSED_STYLES, ORM_PATHS,
+                                                                  list(range(1, maxrows + 1)) if tier == "thorough" else [1, 2, 3, 5, 7]),
         contract_failures=nfails, wall_s=round(time.time() - t0, 1))
     run.assumptions += [
         "the server inserts what the statement says and generates autoincrement keys in VALUES order (what the sen_counter ORDER BY form asks for)",
         "requires len(parameters) >= 1 (the generator is only reached for an executemany)",
         "PostgreSQL / MariaDB / MSSQL only as dialect objects with a stub server; real execution on SQLite only",
-        "outside: ORM bulk insert (orm/persistence.py), composite and non-integer sentinels on server dialects, setinputsizes",
+        "outside: composite and non-integer sentinels on server dialects, setinputsizes, ORM bulk insert with joined-table inheritance / "
+        "several tables per parameter set, ORM bulk UPDATE, on_conflict statements in the composition part",
     ]
 
 
@@ -599,7 +886,12 @@ def replay(data):
     keys = {"slicing": ("part", "dialect", "statement_shape", "sentinel", "rows", "page_size", "max_parameters"),
             "reorder-stub": ("part", "dialect", "sentinel", "rows", "page_size", "permutation"),
             "execute-sqlite": ("part", "style", "rows", "page_size", "sort_by_parameter_order", "permutation"),
-            "execute-sqlite-ipk": ("part", "style", "rows", "page_size", "permutation")}[case["part"]]
+            "execute-sqlite-ipk": ("part", "style", "rows", "page_size", "permutation"),
+            "execute-sqlite-composed": ("part", "style", "rows", "page_size", "composition", "permutation"),
+            "execute-sqlite-cache": ("part", "style", "rows", "page_size", "composition", "permutation"),
+            "orm-sqlite": ("part", "style", "rows", "page_size", "path", "permutation")}[case["part"]]
+    if "composition" in case and case["part"] == "reorder-stub":
+        keys += ("composition",)
     c = {k: case[k] for k in keys}
     r = run_case(c)
     if r is None:
